@@ -9,7 +9,7 @@ use cosmwasm_std::{ReplyOn, Uint128};
 use milky_way::staking::BatchStatus;
 use staking::msg::ExecuteMsg;
 use staking::state::ibc::PacketLifecycleStatus;
-use std::collections::BTreeSet;
+use std::collections::{BTreeMap, BTreeSet};
 
 #[derive(Clone, Debug, PartialEq)]
 pub enum P {
@@ -714,6 +714,51 @@ pub fn post_op(cx: &Ctx, b: &Built, op: &Op, s: &StepOut) {
     // nomination obligations establish is still the nominated one when an acceptance is judged against it
     if !matches!(op, Op::TransferOwnership { .. } | Op::RevokeOwnership { .. } | Op::AcceptOwnership { .. }) {
         claim(f, "C12:only ownership messages touch the admin, the nominee and the lock", post.admin == pre.admin && post.pending_owner == pre.pending_owner && post.min_time == pre.min_time);
+    }
+    // C17: the open requests reported by the UnstakeRequests query follow the history of unstakes and withdrawals:
+    // a successful unstake adds its amount to the caller's request in the pending batch, a successful withdrawal
+    // closes exactly the caller's request in that batch, nothing else touches the set
+    if cx.f.want("C17") && cx.f.props.contains("C17") {
+        let mut want: BTreeMap<(u64, String), T> = pre.reqs.clone();
+        if s.tx.is_ok() {
+            match op {
+                Op::Unstake { sender, .. } => {
+                    let k = (pre.pending_id, who_addr(who, sender));
+                    let old = want.get(&k).cloned().unwrap_or_else(|| "0".into());
+                    want.insert(k, t::add(&old, &input("uns")));
+                }
+                Op::UnstakeMinted { .. } => {
+                    // amount defined by the preceding stake: take the stored request as the amount, keys still checked
+                    for (k, v) in &post.reqs {
+                        if k.0 == pre.pending_id {
+                            want.insert(k.clone(), v.clone());
+                        }
+                    }
+                }
+                Op::Withdraw { sender, batch } => {
+                    want.remove(&(*batch, who_addr(who, sender)));
+                }
+                _ => {}
+            }
+        }
+        for u in [who.u1.clone(), who.u2.clone(), who.u3.clone()] {
+            let exp: Vec<(u64, T)> = want.iter().filter(|((_, usr), _)| *usr == u).map(|((b, _), a)| (*b, a.clone())).collect();
+            let env = b.chain.env.clone();
+            let q = symcore::catch(|| staking::contract::query(b.chain.deps.as_ref(), env, staking::msg::QueryMsg::UnstakeRequests { user: cosmwasm_std::Addr::unchecked(u.clone()) }).map_err(|e| e.to_string()));
+            match q {
+                Ok(Ok(bin)) => {
+                    let r: Vec<staking::state::UnstakeRequest> = cosmwasm_std::from_json(&bin).unwrap();
+                    let mut got: Vec<(u64, T)> = r.iter().map(|x| (x.batch_id, t::ut(x.amount))).collect();
+                    got.sort_by_key(|x| x.0);
+                    claim(f, "C17:after every operation UnstakeRequests lists exactly the user's open requests (unstakes add, withdrawals close)", got.iter().map(|x| x.0).collect::<Vec<_>>() == exp.iter().map(|x| x.0).collect::<Vec<_>>() && r.iter().all(|x| x.user == u));
+                    if got.len() == exp.len() {
+                        let cs: Vec<T> = got.iter().zip(exp.iter()).map(|(g, w)| t::eq(&g.1, &w.1)).collect();
+                        prove(f, "C17:after every operation UnstakeRequests reports the current amounts", t::and(&cs));
+                    }
+                }
+                _ => claim(f, "C17:UnstakeRequests answers", false),
+            }
+        }
     }
     // C16
     if let Tx::Panic(p) = &s.tx {
